@@ -1665,6 +1665,8 @@ class Interp:
         if isinstance(op, ast.BitAnd):
             if isinstance(a, SSet) and isinstance(b, SSet):
                 return SSet(a.items & b.items)
+        if isinstance(op, ast.Div) and hasattr(a, "__opaque_div__"):
+            return a.__opaque_div__(self, b)
         if isinstance(op, ast.Mod) and isinstance(a, str) and isinstance(b, (str, int)):
             return a % b
         raise Unsupported(f"binary operator {type(op).__name__} on {type(a).__name__}, {type(b).__name__}")
